@@ -227,13 +227,28 @@ Section InitFacts.
       + intros; discriminate.
   Qed.
 
+  Lemma init_agent_backend_no_panic sh t b s : init_agent_backend ch tl sh t b <> Panic s.
+  Proof.
+    unfold init_agent_backend. apply bind_no_panic; [|intros; discriminate].
+    intros s'. destruct (b_host b); [discriminate|]. destruct (b_nosan b); [discriminate|].
+    destruct (clean_hosts ch (s0 :: l)); discriminate.
+  Qed.
+
+  Lemma init_agent_no_panic sv a s : init_agent ch tl sv a <> Panic s.
+  Proof.
+    unfold init_agent. cbv zeta. apply bind_no_panic; [|intros; discriminate].
+    apply mapM_no_panic. intros; apply init_agent_backend_no_panic.
+  Qed.
+
   Lemma init_no_panic sv s : init ch tl sv <> Panic s.
   Proof.
     unfold init. destruct (negb _); [discriminate|]. destruct (s_bad_addr sv); [discriminate|].
     destruct (clean_hosts ch (s_host sv)); [|discriminate]. cbv zeta.
     apply bind_no_panic.
-    - apply mapM_no_panic. intros; apply init_endpoint_no_panic.
-    - intros; discriminate.
+    - apply mapM_no_panic. intros; apply init_agent_no_panic.
+    - intros ags s' _. apply bind_no_panic.
+      + apply mapM_no_panic. intros; apply init_endpoint_no_panic.
+      + intros; discriminate.
   Qed.
 
   (* ---------------------------------------------------------------------------------- *)
@@ -312,20 +327,59 @@ Section InitFacts.
   Definition svc1 (sv : svc) (hs : list string) : svc :=
     {| s_version := s_version sv; s_bad_addr := false; s_host := hs;
        s_timeout := (if (s_timeout sv =? 0)%Z then default_timeout else s_timeout sv);
-       s_cache := s_cache sv; s_enc := s_enc sv; s_norest := s_norest sv; s_endpoints := s_endpoints sv |}.
+       s_cache := s_cache sv; s_enc := s_enc sv; s_norest := s_norest sv; s_endpoints := s_endpoints sv;
+       s_agents := s_agents sv |}.
+
+  Definition agent_backend_facts (sh : list string) (timeout : Z) (b b' : backend) : Prop :=
+    (b_host b = [] -> b_host b' = sh) /\
+    (b_host b <> [] -> b_nosan b = true -> b_host b' = b_host b) /\
+    (b_host b <> [] -> b_nosan b = false -> clean_hosts ch (b_host b) = Some (b_host b')) /\
+    b_method b' = (if str_eqb (b_method b) "" then "GET" else b_method b) /\
+    b_timeout b' = timeout /\ b_dec b' = decoder_of (tl (b_enc b)) (b_coll b) /\
+    b_extra b' = b_extra b /\ b_sd b' = b_sd b /\ b_enc b' = b_enc b.
+
+  Lemma init_agent_backend_ok sh t b b' :
+    init_agent_backend ch tl sh t b = Ok b' -> agent_backend_facts sh t b b'.
+  Proof.
+    unfold init_agent_backend. intros H. apply bind_ok in H. destruct H as [hosts [Hh H]].
+    inversion H; subst b'; clear H. unfold agent_backend_facts. simpl. repeat split; auto.
+    - intros E. rewrite E in Hh. inversion Hh. reflexivity.
+    - intros Hne Hn. destruct (b_host b); [congruence|]. rewrite Hn in Hh. inversion Hh. reflexivity.
+    - intros Hne Hn. destruct (b_host b) as [|h0 r0]; [congruence|]. rewrite Hn in Hh.
+      destruct (clean_hosts ch (h0 :: r0)); [inversion Hh; reflexivity|discriminate].
+  Qed.
+
+  Definition agent_facts (sv : svc) (a a' : agent) : Prop :=
+    a_timeout a' = (if negb (s_timeout sv =? 0)%Z && (a_timeout a =? 0)%Z then s_timeout sv else a_timeout a) /\
+    a_workers a' = (if (a_workers a <? 1)%Z then 1%Z else a_workers a) /\
+    a_health a' = (if (a_health a <? second)%Z then second else a_health a) /\
+    a_extra a' = a_extra a /\
+    Forall2 (agent_backend_facts (s_host sv) (a_timeout a')) (a_backends a) (a_backends a').
+
+  Lemma init_agent_ok sv a a' : init_agent ch tl sv a = Ok a' -> agent_facts sv a a'.
+  Proof.
+    unfold init_agent. cbv zeta. intros H. apply bind_ok in H. destruct H as [bs [Hm H]].
+    inversion H; subst a'; clear H. unfold agent_facts. simpl. repeat split; auto.
+    apply mapM_ok in Hm. eapply Forall2_imp; [|exact Hm].
+    intros b b' Hb. apply init_agent_backend_ok. exact Hb.
+  Qed.
 
   Lemma init_ok sv c : init ch tl sv = Ok c ->
     s_version sv = config_version /\
     exists hs, clean_hosts ch (s_host sv) = Some hs /\
-      Forall2 (endpoint_facts (svc1 sv hs)) (s_endpoints sv) (s_endpoints c).
+      Forall2 (endpoint_facts (svc1 sv hs)) (s_endpoints sv) (s_endpoints c) /\
+      Forall2 (agent_facts (svc1 sv hs)) (s_agents sv) (s_agents c).
   Proof.
     unfold init. destruct (s_version sv =? config_version)%Z eqn:Ev; simpl; [|discriminate].
     destruct (s_bad_addr sv); [discriminate|].
     destruct (clean_hosts ch (s_host sv)) as [hs|] eqn:Eh; [|discriminate]. cbv zeta.
-    intros H. apply bind_ok in H. destruct H as [es [Hm H]]. inversion H; subst c; clear H. simpl.
-    split; [apply Z.eqb_eq; exact Ev|]. exists hs. split; [reflexivity|].
-    apply mapM_ok in Hm. eapply Forall2_imp; [|exact Hm].
-    intros e e' He. apply init_endpoint_ok in He. exact He.
+    intros H. apply bind_ok in H. destruct H as [ags [Ha H]].
+    apply bind_ok in H. destruct H as [es [Hm H]]. inversion H; subst c; clear H. simpl.
+    split; [apply Z.eqb_eq; exact Ev|]. exists hs. split; [reflexivity|]. split.
+    - apply mapM_ok in Hm. eapply Forall2_imp; [|exact Hm].
+      intros e e' He. apply init_endpoint_ok in He. exact He.
+    - apply mapM_ok in Ha. eapply Forall2_imp; [|exact Ha].
+      intros a a' He. apply init_agent_ok in He. exact He.
   Qed.
 End InitFacts.
 
@@ -463,13 +517,46 @@ Section Main.
         apply (clean_hosts_ok ch tl) in H. destruct H as [_ [Hl _]]. destruct (b_host b'); [simpl in Hl; discriminate Hl|discriminate].
   Qed.
 
+  Lemma hosts_nonempty_gen sv hs b b' :
+    clean_hosts ch (s_host sv) = Some hs -> has_host sv b ->
+    (b_host b = [] -> b_host b' = hs) ->
+    (b_host b <> [] -> b_nosan b = true -> b_host b' = b_host b) ->
+    (b_host b <> [] -> b_nosan b = false -> clean_hosts ch (b_host b) = Some (b_host b')) ->
+    b_host b' <> [].
+  Proof.
+    intros Hs Hh F1 F2 F3.
+    destruct (b_host b) as [|h0 r0] eqn:Eb.
+    - rewrite (F1 eq_refl). destruct Hh as [Hh|Hh]; [congruence|].
+      apply (clean_hosts_ok ch tl) in Hs. destruct Hs as [_ [Hl _]].
+      destruct hs; [|discriminate]. destruct (s_host sv); [congruence|simpl in Hl; discriminate Hl].
+    - destruct (b_nosan b) eqn:En.
+      + rewrite F2; [discriminate|discriminate|reflexivity].
+      + assert (H : clean_hosts ch (h0 :: r0) = Some (b_host b')) by (apply F3; [discriminate|reflexivity]).
+        apply (clean_hosts_ok ch tl) in H. destruct H as [_ [Hl _]]. destruct (b_host b'); [simpl in Hl; discriminate Hl|discriminate].
+  Qed.
+
+  (* the pipe of every async agent is built without a panic as well *)
+  Lemma total_agents : forall s, well_typed s ->
+    forall c, init ch tl s = Ok c ->
+      forall rd a, In a (s_agents c) -> forall site, agent_factory_new rd a <> FPanic site.
+  Proof.
+    intros s [_ [_ Hag]] c Hc rd a' Hin site. apply init_ok in Hc. destruct Hc as [_ [hs [Hhs [_ F]]]].
+    destruct (Forall2_In_r _ _ _ _ F Hin) as [a [Ha Fa]].
+    rewrite Forall_forall in Hag. destruct (Hag a Ha) as [_ [Hm Hb]].
+    destruct Fa as [_ [_ [_ [Hx Fb]]]].
+    unfold agent_factory_new. apply factory_new_no_panic; simpl; [rewrite Hx; exact Hm|].
+    apply Forall_forall. intros b' Hb'. destruct (Forall2_In_r _ _ _ _ Fb Hb') as [b [Hbin Fbb]].
+    rewrite Forall_forall in Hb. destruct Fbb as [F1 [F2 [F3 _]]].
+    eapply hosts_nonempty_gen; [exact Hhs|apply Hb; exact Hbin|exact F1|exact F2|exact F3].
+  Qed.
+
   Lemma total : forall s, well_typed s ->
     (forall site, init ch tl s <> Panic site) /\
     (forall c, init ch tl s = Ok c ->
        forall rd e, In e (s_endpoints c) -> forall site, factory_new rd e <> FPanic site).
   Proof.
-    intros s [_ Hwt]. split; [intros; apply init_no_panic|].
-    intros c Hc rd e' Hin site. apply init_ok in Hc. destruct Hc as [_ [hs [Hhs F]]].
+    intros s [_ [Hwt _]]. split; [intros; apply init_no_panic|].
+    intros c Hc rd e' Hin site. apply init_ok in Hc. destruct Hc as [_ [hs [Hhs [F _]]]].
     destruct (Forall2_In_r _ _ _ _ F Hin) as [e [He Fe]].
     rewrite Forall_forall in Hwt. destruct (Hwt e He) as [Hm Hb].
     destruct Fe as [_ [_ [_ [_ [_ [_ [_ [Hx [_ Fb]]]]]]]]].
@@ -481,10 +568,15 @@ Section Main.
 
   Lemma ok_not_rejected s c : init ch tl s = Ok c -> ~ must_reject ch s.
   Proof.
-    intros Hc. apply init_ok in Hc. destruct Hc as [Hv [hs [Hhs F]]].
+    intros Hc. apply init_ok in Hc. destruct Hc as [Hv [hs [Hhs [F FA]]]].
     intros [Hb|[Hb|[e [He Hb]]]].
     - apply Hb. exact Hv.
-    - destruct Hb as [[h [Hin Hn]]|[e [b [He [Hb [Hns [h [Hin Hn]]]]]]]].
+    - destruct Hb as [[h [Hin Hn]]|[[e [b [He [Hb [Hns [h [Hin Hn]]]]]]]|[a [b [Ha [Hb [Hns [h [Hin Hn]]]]]]]]].
+      3:{ destruct (Forall2_In_l _ _ _ _ FA Ha) as [a' [_ Fa]].
+          destruct Fa as [_ [_ [_ [_ Fb]]]].
+          destruct (Forall2_In_l _ _ _ _ Fb Hb) as [b' [_ [_ [_ [F3 _]]]]].
+          assert (Hne : b_host b <> []) by (destruct (b_host b); [contradiction|discriminate]).
+          specialize (F3 Hne Hns). apply (clean_hosts_ok ch tl) in F3. destruct F3 as [_ [_ H]]. exact (H h Hin Hn). }
       + apply (clean_hosts_ok ch tl) in Hhs. destruct Hhs as [_ [_ H]]. exact (H h Hin Hn).
       + destruct (Forall2_In_l _ _ _ _ F He) as [e' [_ Fe]].
         destruct Fe as [_ [_ [_ [_ [_ [_ [_ [_ [_ Fb]]]]]]]]].
@@ -584,7 +676,7 @@ Section PostFacts.
   Lemma post : forall s c, well_typed s -> init ch tl s = Ok c ->
     Forall2 (post_endpoint ch s) (s_endpoints s) (s_endpoints c).
   Proof.
-    intros s c [[Hst [_ Hne]] Hwt] Hc. apply init_ok in Hc. destruct Hc as [_ [hs [Hhs F]]].
+    intros s c [[Hst [_ Hne]] [Hwt _]] Hc. apply init_ok in Hc. destruct Hc as [_ [hs [Hhs [F _]]]].
     assert (Hpos : (0 < s_timeout (svc1 s hs))%Z).
     { simpl. destruct (s_timeout s =? 0)%Z eqn:E; [reflexivity|]. apply Z.eqb_neq in E. lia. }
     revert Hne Hwt. induction F as [|e e' es es' Fe F IH]; intros Hne Hwt; constructor.
@@ -606,5 +698,38 @@ Section PostFacts.
         * inversion Hb; subst. eapply backend_post; eauto.
         * apply IHFb. inversion Hb; assumption.
     - apply IH; [inversion Hne; assumption|inversion Hwt; assumption].
+  Qed.
+
+  Lemma post_agents : forall s c, well_typed s -> init ch tl s = Ok c ->
+    Forall2 (post_agent ch) (s_agents s) (s_agents c).
+  Proof.
+    intros s c [[Hst _] [_ Hag]] Hc. apply init_ok in Hc. destruct Hc as [_ [hs [Hhs [_ F]]]].
+    assert (Hpos : (0 < s_timeout (svc1 s hs))%Z).
+    { simpl. destruct (s_timeout s =? 0)%Z eqn:E; [reflexivity|]. apply Z.eqb_neq in E. lia. }
+    revert Hag. induction F as [|a a' l l' Fa F IH]; intros Hag; constructor.
+    - inversion Hag as [|? ? [Hat [_ Hb]] _]; subst.
+      destruct Fa as [Ht [Hw [Hh [_ Fb]]]].
+      assert (Ht' : (0 < a_timeout a')%Z).
+      { rewrite Ht. destruct (negb (s_timeout (svc1 s hs) =? 0)%Z && (a_timeout a =? 0)%Z) eqn:E; [exact Hpos|].
+        apply andb_false_iff in E. destruct E as [E|E].
+        - apply negb_false_iff, Z.eqb_eq in E. lia.
+        - apply Z.eqb_neq in E. lia. }
+      unfold post_agent. repeat split.
+      + exact Ht'.
+      + rewrite Hw. destruct (a_workers a <? 1)%Z eqn:E; [lia|]. apply Z.ltb_ge in E. exact E.
+      + rewrite Hh. destruct (a_health a <? second)%Z eqn:E; [lia|]. apply Z.ltb_ge in E. exact E.
+      + clear -Fb Hb Hhs Ht'. induction Fb as [|b b' r r' Fbb Fb IHb]; constructor.
+        * inversion Hb as [|? ? Hhb _]; subst. destruct Fbb as [F1 [F2 [F3 [F4 [F5 [F6 _]]]]]].
+          unfold post_agent_backend. repeat split.
+          -- rewrite F4. destruct (str_eqb (b_method b) "") eqn:E; [discriminate|]. apply str_eqb_neq. exact E.
+          -- rewrite F5. exact Ht'.
+          -- rewrite F6. apply decoder_of_chosen.
+          -- intros Hns. destruct (b_host b) as [|h0 r0] eqn:Eb.
+             ++ rewrite (F1 eq_refl). apply (clean_hosts_ok ch tl) in Hhs. simpl. tauto.
+             ++ assert (H : clean_hosts ch (h0 :: r0) = Some (b_host b')) by (apply F3; [discriminate|exact Hns]).
+                apply (clean_hosts_ok ch tl) in H. tauto.
+          -- eapply (hosts_nonempty_gen ch tl); [exact Hhs|exact Hhb|exact F1|exact F2|exact F3].
+        * apply IHb. inversion Hb; assumption.
+    - apply IH. inversion Hag; assumption.
   Qed.
 End PostFacts.
